@@ -322,8 +322,8 @@ func c07(r *Report, s *Sem) {
 				if ifi == nil {
 					return false
 				}
-				call, _, isNil, ok := errTest(ifi, k == 0)
-				return ok && call == send && !isNil
+				isNil, ok := errTestOf(ifi, k == 0, send)
+				return ok && !isNil
 			}})
 		r.Check(R6, "func "+fnName(fn)+" / close after send", p.instrPos(send), len(exits) == 0, fmt.Sprintf("%d exit(s) reachable on the send's err == nil edge without Transport.Close", len(exits)))
 	}
